@@ -105,7 +105,7 @@ def setup_src(cell):
 
 
 def n_cases(tier):
-    return 2500 if tier == "quick" else 40000
+    return 2500 if tier == "quick" else 12000
 
 
 def gen_case(seed, i, tier="quick"):
